@@ -16,7 +16,8 @@ for f in sorted(glob.glob(f'/verif/work/collect/{prop}/*.json')):
     rel = f'replays/{prop}/kf-{h}.json'
     os.makedirs(os.path.dirname('/verif/' + rel), exist_ok=True)
     json.dump(c['replay'], open('/verif/' + rel, 'w'), indent=1)
-    d['findings'].append({"status": "open", "property": prop, "key": key, "description": templ.format(key=key), "replay": rel})
+    d['findings'].append({"status": "open", "property": prop, "key": key, "description": templ.format(key=key), "replay": rel,
+                          "line": f"KNOWN-FINDING: property={prop} {key} {templ.format(key=key)[:300]}"})
     n += 1
     print("registered", key)
 json.dump(d, open(p, 'w'), indent=1)
